@@ -99,10 +99,10 @@ PROPS = {
         "context, current i18n parameters, macroname bound, globals merged back) and the slot "
         "protocol of a macro body (filler taken once, called instead of the default content) are "
         "proved on the emitted code.",
-        S_METAL,
+        S_METAL + [K("zpt/template.py::Macros.__getitem__")],
         ["'equals inlining' is reduced to calling convention + slot protocol + A-COMP",
          "extend-macro chains and nested uses (deque discipline across call histories)",
-         "Macros.__getitem__/names, PageTemplate.include (pending)"]),
+         "Macros.names, PageTemplate.include (pending)"]),
     "C10": k3prop(
         "Emitted translation blocks are proved to call translate exactly once with the explicit or "
         "computed (collapsed, trimmed, ${name}) message id, the mapping of named children, the "
@@ -200,7 +200,7 @@ PROPS = {
                       "precondition. The @cache decorator of load is under contract "
                       "(same arguments => the instance created the first time, loaded once).",
         "units": [K("template.py::BaseTemplateFile.cook_check"), K("loader.py::TemplateLoader.load"),
-                  K("loader.py::cache.load"),
+                  K("loader.py::cache.load"), K("zpt/template.py::Macros.__getitem__"),
                   U('pyvc.frames', 'search_path_frame', 'search_path_frame'),
                   U('pyvc.frames', 'render_write_frame', 'render.write_frame'),
                   U('pyvc.frames', 'cook_drops_stale', 'cook.drops_stale_functions')],
